@@ -2,7 +2,7 @@
 # Confirm a sub-agent's seeded change in ITS scratch worktree (/tmp/seed/<id>/repo), from its patch.diff:
 #   (1) the existing suite passes with the change, (2) the demo fails with it, (3) the demo passes without it.
 # (no git stash: the stash is shared between the worktrees of one repository)
-ID="$1"; D="/tmp/seed/$ID"; R="$D/repo"
+ID="$1"; R="/tmp/seed/$ID/repo"; D="${2:-/tmp/seed/$ID}"   # D = artifacts dir (patch.diff, seed_demo.rs)
 cd "$R" || exit 2
 OUT="$D/confirm.txt"; : > "$OUT"
 git checkout -q -- src
